@@ -34,7 +34,7 @@ def run(tier):
     combos = set((e["e"], e["op"], e["lw"], e["rw"], e["lt"], e["rt"]) for e in events)
     chk.count(evaluations=len(events) + pairs, distinct=len(combos), traces=1)
     chk.sample({k: wide(v) for k, v in events[len(events) // 2].items()})
-    chk.sample(events[0])
+    chk.sample(events[0] if events else {})
     chk.cov["exhaustive_8bit_pairs_evaluated"] = pairs
     chk.cov["exhaustive"] = True
     chk.cov["exhaustive_scope"] = "all 8-bit operand pairs with defined behaviour x 16 binary/comparison operators x 8 operand-" \
